@@ -175,25 +175,25 @@ func (r *Run) deepEq(t types.Type, x, y value, seen map[[2]*value]bool, depth in
 }
 
 // backing collects the element slots of every slice reachable from v.
-func backingOf(t types.Type, v value, out map[*value]bool, seen map[*value]bool, depth int) {
+func backingOf(t types.Type, v value, out map[*value]bool, seen map[*value]bool, depth int, stop ...map[*value]bool) {
 	if depth > 10 {
 		return
 	}
 	switch tt := t.Underlying().(type) {
 	case *types.Pointer:
 		p, ok := v.(*value)
-		if !ok || p == nil || seen[p] {
+		if !ok || p == nil || seen[p] || (len(stop) > 0 && stop[0][p]) {
 			return
 		}
 		seen[p] = true
-		backingOf(tt.Elem(), *p, out, seen, depth+1)
+		backingOf(tt.Elem(), *p, out, seen, depth+1, stop...)
 	case *types.Struct:
 		s, ok := v.(structure)
 		if !ok {
 			return
 		}
 		for i := 0; i < tt.NumFields(); i++ {
-			backingOf(tt.Field(i).Type(), s[i], out, seen, depth+1)
+			backingOf(tt.Field(i).Type(), s[i], out, seen, depth+1, stop...)
 		}
 	case *types.Slice:
 		s, ok := v.([]value)
@@ -205,11 +205,11 @@ func backingOf(t types.Type, v value, out map[*value]bool, seen map[*value]bool,
 			out[&full[i]] = true
 		}
 		for i := range s {
-			backingOf(tt.Elem(), s[i], out, seen, depth+1)
+			backingOf(tt.Elem(), s[i], out, seen, depth+1, stop...)
 		}
 	case *types.Interface:
 		if iv, ok := v.(iface); ok && iv.t != nil {
-			backingOf(iv.t, iv.v, out, seen, depth+1)
+			backingOf(iv.t, iv.v, out, seen, depth+1, stop...)
 		}
 	}
 }
@@ -251,12 +251,14 @@ func GModeStubs(st map[string]StubFn, prefix string) {
 	}
 	st[prefix+"AssertNoAlias"] = func(r *Run, fr *frame, fn *ssa.Function, a []value) value {
 		x, y := a[1].(iface), a[2].(iface)
+		// (a slice behind a pointer both sides SHARE belongs to one shared object, see vrt.AssertNoAlias)
 		bx, by := map[*value]bool{}, map[*value]bool{}
-		if x.t != nil {
-			backingOf(x.t, x.v, bx, map[*value]bool{}, 0)
-		}
+		ptrsY := map[*value]bool{}
 		if y.t != nil {
-			backingOf(y.t, y.v, by, map[*value]bool{}, 0)
+			backingOf(y.t, y.v, by, ptrsY, 0)
+		}
+		if x.t != nil {
+			backingOf(x.t, x.v, bx, map[*value]bool{}, 0, ptrsY)
 		}
 		ok := true
 		for p := range bx {
